@@ -58,11 +58,11 @@ pub struct RunResult {
     /// distinct outcomes of completed iterations: json of {regs, drops} -> count
     pub outcomes: BTreeMap<String, usize>,
     /// distinct traces (each: list of [t, pc, res|null])
-    pub traces: Vec<Vec<(usize, usize, Option<i64>)>>,
+    pub traces: Vec<Vec<(usize, usize, Option<i64>, i64)>>,
     /// number of distinct traces seen (may exceed traces.len() because of the cap)
     pub distinct_traces: usize,
     /// events of the iteration that failed (if any)
-    pub fail_trace: Vec<(usize, usize, Option<i64>)>,
+    pub fail_trace: Vec<(usize, usize, Option<i64>, i64)>,
     pub paths: Vec<String>,
     /// per-iteration outcome ids in execution order (index into `seq_keys`)
     pub seq: Vec<usize>,
@@ -86,6 +86,8 @@ pub fn classify(msg: &str) -> &'static str {
         "leak:msg"
     } else if msg.starts_with("Model exceeded maximum number of branches") {
         "branches"
+    } else if msg.starts_with("currently writing to cell") || msg.starts_with("currently reading from cell") {
+        "usage"
     } else if msg.starts_with("verif-panic") {
         "panic"
     } else if msg.starts_with("verif-cap") {
@@ -95,8 +97,40 @@ pub fn classify(msg: &str) -> &'static str {
     }
 }
 
-fn evs(v: &[Ev]) -> Vec<(usize, usize, Option<i64>)> {
-    v.iter().map(|e| (e.t, e.pc, e.res)).collect()
+fn evs(v: &[Ev]) -> Vec<(usize, usize, Option<i64>, i64)> {
+    v.iter().map(|e| (e.t, e.pc, e.res, -1)).collect()
+}
+
+/// Events with the spurious decisions loom took attached to the `nwait` events: possible when the
+/// program has a single Notify object and no block_on (then the Spurious entries of the executed path
+/// are, in order, the decisions of that object's successive waits).
+fn evs_spur(prog: &Prog, v: &[Ev], path: &str) -> Vec<(usize, usize, Option<i64>, i64)> {
+    let mut out = evs(v);
+    let uses_blockon = prog.threads.iter().any(|th| th.iter().any(|i| i.op == "blockon"));
+    if prog.ntfs.len() != 1 || uses_blockon {
+        return out;
+    }
+    let spurs: Vec<bool> = match serde_json::from_str::<serde_json::Value>(path) {
+        Ok(p) => p["branches"]["entries"]
+            .as_array()
+            .map(|a| a.iter().filter_map(|e| e.get("Spurious").map(|s| s["spur"].as_bool().unwrap_or(false))).collect())
+            .unwrap_or_default(),
+        Err(_) => return out,
+    };
+    let mut k = 0;
+    let mut spurred = false;
+    for (i, e) in v.iter().enumerate() {
+        if prog.threads[e.t - 1][e.pc - 1].op == "nwait" {
+            if spurred {
+                out[i].3 = 0;          // the object already spurred once: no decision was taken, a real wake-up
+            } else if k < spurs.len() {
+                out[i].3 = spurs[k] as i64;
+                spurred = spurs[k];
+                k += 1;
+            }
+        }
+    }
+    out
 }
 
 fn outcome_key(prog: &Prog, nthreads: usize, log: &[Ev]) -> String {
@@ -136,7 +170,7 @@ struct Acc {
 
 impl Acc {
     /// the pending iteration completed without a leak report: count it
-    fn commit(&mut self, cfg: &Cfg) {
+    fn commit(&mut self, cfg: &Cfg, prog: &Prog) {
         if let Some((log, key, path)) = self.pending.take() {
             *self.res.outcomes.entry(key.clone()).or_insert(0) += 1;
             if cfg.want_seq {
@@ -147,11 +181,11 @@ impl Acc {
                 }
                 self.res.seq.push(id);
             }
-            let _ = path;
+
             if cfg.trace_cap > 0 && !self.seen.contains(&log) {
                 self.res.distinct_traces += 1;
                 if self.res.traces.len() < cfg.trace_cap {
-                    self.res.traces.push(evs(&log));
+                    self.res.traces.push(evs_spur(prog, &log, &path));
                 }
                 self.seen.insert(log);
             }
@@ -189,7 +223,7 @@ pub fn run_program(prog: &Prog, cfg: &Cfg) -> RunResult {
                 a.pending = Some((log, key, path.to_string()));
             }
             "step" | "done" => {
-                a.commit(&cfg2);
+                a.commit(&cfg2, &prog2);
                 if phase == "step" {
                     if let Some(cap) = cfg2.iter_cap {
                         if iter > cap {
@@ -242,7 +276,7 @@ pub fn run_program(prog: &Prog, cfg: &Cfg) -> RunResult {
     if r.is_ok() {
         // returned between iterations (max_permutations / max_duration): the last iteration passed its leak check
         acc.borrow_mut().pending = pending.clone();
-        acc.borrow_mut().commit(cfg);
+        acc.borrow_mut().commit(cfg, &prog);
     }
     let mut out = std::mem::take(&mut acc.borrow_mut().res);
     match r {
